@@ -345,6 +345,77 @@ def gen_dup_headers(rng):
     return layout(rng, phys, xref, 1, mark=True, compressed=compressed)
 
 
+def gen_same_header(rng, big=0, variant=None):
+    """object streams whose `N 0 obj` header number differs from the cross-reference entry number that leads to them, and
+    several entries leading to DIFFERENT object streams that carry the SAME header number (a container re-listed under a new
+    slot without renumbering).  The blocks are keyed by the entry number: a reader that keys them by the header number gets
+    equal sort keys and merges in completion order.  big > 0: one container holds `big` members and the other two, so that the
+    workers of a real pool finish in the opposite of the cross-reference order."""
+    v = rng.randrange(6) if variant is None else variant
+    cat = Phys(1, ('obj', ('d', [(b'Type', ('n', b'Catalog'))])))
+    data = b'body of the zero length stream'
+    z = Phys(2, ('stm', [], data, ('ref', 20, False)))            # its Length lives only inside the object streams
+    plain = Phys(3, ('obj', rand_obj(rng)))
+    phys = [cat, z, plain]
+    xref = {1: cat, 2: z, 3: plain}
+    def members(tag, n_extra=0, first=False):
+        ms = [(9, ('s', b'from ' + tag)), (20, ('i', len(data) if first else rng.choice([4, 7, len(data) + 1])))]
+        if rng.random() < 0.5:
+            ms.append((30 + rng.randrange(3), ('n', tag)))
+        ms += [(1000 + j, ('i', j)) for j in range(n_extra)]
+        if rng.random() < 0.5 and not n_extra:
+            rng.shuffle(ms)
+        return ms
+    if v == 0:
+        # two entries, two containers, one header number (that of the first entry / of the second / of neither)
+        k1, k2 = rng.choice([(4, 5), (4, 7), (5, 8)])
+        h = rng.choice([k1, k2, 6, 12])
+        specs = [(k1, h, b'first'), (k2, h, b'second')]
+    elif v == 1:
+        # three containers with one header number
+        h = rng.choice([4, 5, 6, 11])
+        specs = [(4, h, b'first'), (5, h, b'second'), (6, h, b'third')]
+    elif v == 2:
+        # header numbers exchanged: entry 4 leads to "5 0 obj", entry 5 to "4 0 obj" (no tie, but the other order)
+        specs = [(4, 5, b'first'), (5, 4, b'second')]
+    elif v == 3:
+        # headers descending while the entries ascend, one of them far away
+        specs = [(4, 40, b'first'), (5, 7, b'second'), (6, 5, b'third')]
+    elif v == 4:
+        # a tie between two of three, the third sorts before them by header and after them by entry
+        specs = [(4, 9, b'first'), (5, 9, b'second'), (7, 4, b'third')]
+    else:
+        # the header number is that of a plain object listed under its own entry (which comes later: it replaces the container)
+        specs = [(4, 3, b'first'), (5, 3, b'second')] if rng.random() < 0.5 else [(4, 8, b'first'), (5, 8, b'second'), (8, 8, b'third')]
+    sizes = [0] * len(specs)
+    if big:
+        sizes[rng.choice([0, 0, 0, len(specs) - 1])] = big        # mostly: the container met first is the slow one
+    for (key, h, tag), n_extra in zip(specs, sizes):
+        p = Phys(h, ('objstm', members(tag, n_extra, first=(key == specs[0][0])), False))
+        phys.append(p)
+        xref[key] = p
+    head, tail = phys[:3], phys[3:]
+    if not big or rng.random() < 0.5:
+        rng.shuffle(phys)
+    compressed = None
+    r = rng.random()
+    if r < 0.6:
+        keys = [k for k, _, _ in specs]
+        hs = [h for _, h, _ in specs]
+        compressed = {}
+        for num in (9, 20, 30, 31):
+            q = rng.random()
+            if q < 0.4:
+                compressed[num] = rng.choice(keys)                # named by the entry number (what the table means)
+            elif q < 0.7:
+                compressed[num] = rng.choice(hs)                  # a container number that is only a header number
+            elif q < 0.8:
+                compressed[num] = 3
+        if not compressed:
+            compressed = {9: keys[-1]}
+    return layout(rng, phys, xref, 1, mark=True, compressed=compressed)
+
+
 def gen_cases(rng, tier):
     quick = tier == 'quick'
     cases = []
@@ -360,6 +431,14 @@ def gen_cases(rng, tier):
     for _ in range(12 if quick else 120):
         _, case = gen_dup_headers(rng)
         cases.append((case, {'kind': 'dup-headers', 'nontrivial': True}))
+    # header number != entry number (drawn last: the cases above stay what they were)
+    for v in range(6):
+        for _ in range(2 if quick else 40):
+            _, case = gen_same_header(rng, 0, v)
+            cases.append((case, {'kind': 'same-header-%d' % v, 'nontrivial': True}))
+    for k in range(3 if quick else 30):
+        _, case = gen_same_header(rng, rng.choice([1000, 1500]), k % 2)
+        cases.append((case, {'kind': 'same-header-big', 'nontrivial': True}))
     return cases
 
 
@@ -377,7 +456,12 @@ SPEC = {
             'numbers that are also Normal entries, members out of bounds, broken and empty object streams), ordinary '
             'streams whose Length is direct / zero / a resolvable reference / a reference defined only inside object '
             'streams (possibly with several values, negative or beyond the file) / dangling, unreadable entries, several '
-            'xref keys for one header id or one offset; every case is loaded under every permutation of the blocks '
+            'xref keys for one header id or one offset; object streams whose `N 0 obj` header number differs from their xref entry '
+            'number: two or three entries leading to different object streams with the SAME header number (that of one of the entries, of '
+            'a plain object, of no entry), header numbers exchanged or descending against the entries, the contested member '
+            '(different bodies, also the Length of a zero-length stream) placed by Compressed entries in an entry number or in a '
+            'number that is only a header number, and a container of 1000-1500 members beside one of two so that real pools finish '
+            'against the xref order; every case is loaded under every permutation of the blocks '
             '(<= 6 blocks: all, <= 720) and of the zero-length ids (<= 4: all) through hook H1, 8 times on each rayon '
             'pool of 1,2,3,4,8,16 threads, and by the --no-default-features build; non-trivial = at least two object streams',
     'extra_trusted': [
